@@ -237,6 +237,7 @@ def check_ro_command(ctx, case, act, cmd) -> None:
 
 class C12(Profile):
     id = 'C12'
+    BACKENDS = ('dict', 'dict', 'dict', 'maildir')
     level = 'exploration'
     quick_budget_s = 40.0
     thorough_budget_s = 420.0
@@ -260,7 +261,9 @@ class C12(Profile):
     components = C01.components
 
     def gen(self, rng, tier):
-        return gen_ro_case(rng, tier)
+        from .common import backends, finish_cfg
+        return finish_cfg(gen_ro_case(
+            rng, tier, backends=backends(self.BACKENDS)), rng)
 
     def run(self, case, trace=False):
         a = _run_variant(case, True, trace)
